@@ -1383,6 +1383,15 @@ def _symbolic_keys_to_tuples(
         monomial = key.as_powers_dict()
         if monomial.keys() - set(symbols) - {1}:
             raise ValueError("The Hamiltonian keys must be monomials of symbols")
+        if not all(
+            power.is_Integer and power >= 0
+            for base, power in monomial.items()
+            if base != 1
+        ):
+            raise ValueError(
+                "The Hamiltonian keys must be monomials of symbols with non-negative"
+                " integer powers"
+            )
         new_hamiltonian[tuple(monomial[s] for s in symbols)] = value
     return new_hamiltonian, symbols
 
